@@ -316,7 +316,8 @@ class SchemaBuilder(
                 additional_properties = self._properties_schema(
                     self._object_schema(cls, field)
                 )
-        alias_by_names = {f.name: f.alias for f in fields}.__getitem__
+        # AliasedStr, as the keys of `properties`: the dynamic aliaser renames them too
+        alias_by_names = {f.name: AliasedStr(f.alias) for f in fields}.__getitem__
         dependent_required = get_dependent_required(cls)
         result = []
         if discriminator_parent := get_discriminated_parent(cls):
